@@ -176,15 +176,16 @@ def sameSvcDef (e : Svc) (s : SvcDef) : Bool := decide (e.sid = s.sid ∧ e.name
 def putSvc (c : Cat) (s : Svc) : Cat :=
   { c with svcs := c.svcs.filter (fun x => !svcAt s.peer s.node s.sid x) ++ [s] }
 
-def regSvc (c : Cat) (p n : String) (s : SvcDef) : Except Err Cat :=
+/-- the stored row of this instance already equals the definition (`ensureRegistrationTxn` skips it) -/
+def svcStored (c : Cat) (p n : String) (s : SvcDef) : Bool :=
   match c.svcs.find? (svcAt p n s.sid) with
-  | some e =>
-    if sameSvcDef e s then .ok c
-    else if c.nodes.any (nodeAt p n) then .ok (putSvc c ⟨p, n, s.sid, s.name, s.port⟩)
-    else .error .missingNode
-  | none =>
-    if c.nodes.any (nodeAt p n) then .ok (putSvc c ⟨p, n, s.sid, s.name, s.port⟩)
-    else .error .missingNode
+  | some e => sameSvcDef e s
+  | none => false
+
+def regSvc (c : Cat) (p n : String) (s : SvcDef) : Except Err Cat :=
+  if svcStored c p n s then .ok c
+  else if c.nodes.any (nodeAt p n) then .ok (putSvc c ⟨p, n, s.sid, s.name, s.port⟩)
+  else .error .missingNode
 
 def putChk (c : Cat) (k : Chk) : Cat :=
   { c with chks := c.chks.filter (fun x => !chkAt k.peer k.node k.cid x) ++ [k] }
@@ -193,21 +194,23 @@ def putChk (c : Cat) (k : Chk) : Cat :=
 def sameChk (a b : Chk) : Bool :=
   decide (a.node = b.node ∧ a.cid = b.cid ∧ a.status = b.status ∧ a.sid = b.sid ∧ a.sname = b.sname)
 
+/-- tail of `ensureCheckTxn`: nothing is written when the stored check is the same -/
+def upsertChk (c : Cat) (row : Chk) : Cat :=
+  match c.chks.find? (chkAt row.peer row.node row.cid) with
+  | some e => if sameChk e row then c else putChk c row
+  | none => putChk c row
+
+/-- "Use the default check status if none was provided" -/
+def normStatus (s : String) : String := if s = "" then "critical" else s
+
 /-- `ensureCheckIfNodeMatches` + `ensureCheckTxn` -/
 def regChk (c : Cat) (p reqNode : String) (k : ChkDef) : Except Err Cat :=
   if k.node ≠ reqNode then .error .checkNodeMismatch
   else if !(c.nodes.any (nodeAt p k.node)) then .error .missingNode
-  else
-    let status := if k.status = "" then "critical" else k.status
-    let finish (sname : String) : Cat :=
-      let row : Chk := ⟨p, k.node, k.cid, k.sid, sname, status⟩
-      match c.chks.find? (chkAt p k.node k.cid) with
-      | some e => if sameChk e row then c else putChk c row
-      | none => putChk c row
-    if k.sid = "" then .ok (finish k.sname)
-    else match c.svcs.find? (svcAt p k.node k.sid) with
-      | some s => .ok (finish s.name)          -- service name copied from the service row
-      | none => .error .missingService
+  else if k.sid = "" then .ok (upsertChk c ⟨p, k.node, k.cid, k.sid, k.sname, normStatus k.status⟩)
+  else match c.svcs.find? (svcAt p k.node k.sid) with
+    | some s => .ok (upsertChk c ⟨p, k.node, k.cid, k.sid, s.name, normStatus k.status⟩)   -- service name copied from the service row
+    | none => .error .missingService
 
 def regChks (c : Cat) (p reqNode : String) : List ChkDef → Except Err Cat
   | [] => .ok c
@@ -445,6 +448,24 @@ def pruneAll (p : String) (keep : List String) : List String → Res → Res
 
 def handleList (c : Cat) (p : String) (names : List String) : Res :=
   pruneAll p (keepNames names) (serviceList c p) { cat := c }
+
+/-! ### a replication stream: messages are processed one after the other (`processResponse`) -/
+
+inductive Msg
+  | upd (p sn : String) (insts : List Inst)      -- exported-service upsert; `insts = []` is the deletion
+  | list (p : String) (names : List String)      -- exported-service list
+deriving DecidableEq, Repr
+
+def Msg.peer : Msg → String
+  | .upd p _ _ => p
+  | .list p _ => p
+
+/-- the catalog after one message, whatever its outcome (a failing update keeps what it already wrote) -/
+def stepMsg (c : Cat) : Msg → Cat
+  | .upd p sn insts => (handleUpdate c p sn insts).cat
+  | .list p names => (handleList c p names).cat
+
+def runMsgs (c : Cat) (ms : List Msg) : Cat := ms.foldl stepMsg c
 
 /-! ### the exporting side: `exportedServicesForPeerTxn` -/
 
